@@ -153,6 +153,13 @@ func (o observer) at(pos string) string {
 	return o.tag + "/" + pos
 }
 
+func (o observer) key(k string) string {
+	if o.tag == "" {
+		return k
+	}
+	return k + " / " + o.tag
+}
+
 func (o observer) who() string {
 	if o.tag == "" {
 		return "a fresh client"
@@ -228,7 +235,7 @@ func (hn *harness) postMortem(def *dagDef, kd *killed, obs []observer) (fs []fin
 				}
 			}
 		}
-		summary["reported"+o.tag] = describe(st)
+		summary[o.key("reported")] = describe(st)
 		// the same through the path the web UI takes, the socket probe, the run looked up by its id;
 		// the history reads are made as well (they go through the same file cache)
 		var ds *client.DAGStatus
@@ -261,7 +268,7 @@ func (hn *harness) postMortem(def *dagDef, kd *killed, obs []observer) (fs []fin
 		for _, f := range jf {
 			add(f.Kind+"/"+p, "%s", f.Detail)
 		}
-		summary["job_after_kill"+o.tag] = jc
+		summary[o.key("job_after_kill")] = jc
 	}
 
 	// 3. the DAG can be started again
@@ -331,7 +338,7 @@ func (hn *harness) postMortem(def *dagDef, kd *killed, obs []observer) (fs []fin
 		for _, f := range jf {
 			add(f.Kind+"/"+p, "%s", f.Detail)
 		}
-		summary["job_after_restart"+o.tag] = jc
+		summary[o.key("job_after_restart")] = jc
 	}
 	return fs, summary, nil
 }
